@@ -30,7 +30,7 @@ Cnt0 == [records |-> 0, execs |-> 0, loads |-> 0, follow |-> 0, skipped |-> 0,
          st_evals |-> 0, result_evals |-> 0, time_evals |-> 0, mem_evals |-> 0,
          accepted |-> 0, rejected |-> 0, died |-> 0,
          k_smf |-> 0, k_rmi |-> 0, k_gmf |-> 0, k_mus |-> 0, k_xmi |-> 0, k_cmf |-> 0, k_imf |-> 0, k_rsxx |-> 0, k_junk |-> 0, k_short |-> 0, k_unk |-> 0,
-         big |-> 0, maxn |-> 0, maxcpu |-> 0, maxrss |-> 0,
+         big |-> 0, slow_1s |-> 0, fat_128m |-> 0,
          predicted |-> 0, pred_acc |-> 0, pred_rej |-> 0, pred_crash |-> 0, pred_resource |-> 0, pred_unk |-> 0, pred_skipped |-> 0,
          refined |-> 0, drifted |-> 0, sel_neg |-> 0, reload |-> 0]
 Init == l = 1 /\ cur = Cur0 /\ fails = <<>> /\ cnt = Cnt0 /\ drift = <<>> /\ exec = 0
@@ -95,8 +95,8 @@ StepLoad(ev) ==
                  !.k_smf = @ + B(kind = "smf"), !.k_rmi = @ + B(kind = "rmi"), !.k_gmf = @ + B(kind = "gmf"), !.k_mus = @ + B(kind = "mus"),
                  !.k_xmi = @ + B(kind = "xmi"), !.k_cmf = @ + B(kind = "cmf"), !.k_imf = @ + B(kind = "imf"), !.k_rsxx = @ + B(kind = "rsxx"),
                  !.k_junk = @ + B(kind = "junk"), !.k_short = @ + B(kind = "short"), !.k_unk = @ + B(kind = "unk"),
-                 !.big = @ + B(n >= 16384), !.maxn = Max(@, n),
-                 !.maxcpu = Max(@, IF ev.st = "ok" THEN ev.cpu ELSE 0), !.maxrss = Max(@, IF ev.st = "ok" THEN ev.hwm ELSE 0),
+                 !.big = @ + B(n >= 16384),
+                 !.slow_1s = @ + B(ev.st = "ok" /\ ev.cpu > 1000), !.fat_128m = @ + B(ev.st = "ok" /\ ev.hwm > 131072),
                  !.predicted = @ + B(decided), !.pred_acc = @ + B(pred.res = "acc"), !.pred_rej = @ + B(pred.res = "rej"),
                  !.pred_crash = @ + B(pred.res = "crash"), !.pred_resource = @ + B(pred.res = "resource"),
                  !.pred_unk = @ + B(canPredict /\ ~decided), !.pred_skipped = @ + B(~canPredict),
